@@ -22,7 +22,7 @@ ObOf(j) == [kind |-> j.kind, parent |-> j.parent, children |-> SeqMap(j.children
 
 Entries(e) == {e.entries[i] : i \in DOMAIN e.entries}
 \* keyword -> value the public attribute of the copy must show (label handled apart: it is not in pub)
-OvrOf(e) == LET es == {n \in Entries(e) : n.family # "label"} IN
+OvrOf(e) == LET es == {n \in Entries(e) : n.family \notin {"label", "parent"}} IN
             [a \in {n.attr : n \in es} |-> (CHOOSE n \in es : n.attr = a).val]
 \* what the keywords are entitled to change on the copy, as (original object, attribute) pairs:
 \*   path keywords - the pose attributes of the whole subtree (compound motion) and with them the private buffers
@@ -45,18 +45,27 @@ FreeLeaves(e) == {n.leaf : n \in {n \in Entries(e) : n.family = "style"}}
 
 \* <<property, clause>> of the first failing clause of a copy step, or <<"ok","ok">>.  e: a copy record
 \* {sc, root, pre, post, outcome, same_object, kwargs_intact, ren, entries, leaves, field, field_mismatch}
+\* the collection the caller asked the copy to join (keyword parent=...), None otherwise
+ParOf(e) == LET ps == {n \in Entries(e) : n.family = "parent"} IN IF ps = {} THEN None ELSE (CHOOSE n \in ps : TRUE).val
+\* errors the library raises for invalid input (style properties are rejected with AttributeError / ValueError)
+InputErrors == {"exc:MagpylibBadUserInput", "exc:AttributeError", "exc:ValueError"}
 CopyVerdict(e) ==
     IF e.outcome # "ok"
-    THEN \* a subject that cannot be duplicated at all: copy() may fail, but "leaves the original tree untouched"
-         IF e.sc.uncopyable THEN (IF OriginalUntouched(ObOf(e.pre), ObOf(e.post)) THEN <<"ok", "ok">> ELSE <<"C18", "OriginalUntouched">>)
+    THEN \* a call that must be rejected (invalid keyword value), or a subject that cannot be duplicated at all: copy() fails,
+         \* but "leaves the original tree untouched" - and the collection given as parent, and the caller's arguments
+         IF e.sc.uncopyable \/ e.sc.expect_raise
+         THEN (IF ~RejectedCopyUntouched(ObOf(e.pre), ObOf(e.post)) THEN <<"C18", "OriginalUntouched">>
+               ELSE IF e.sc.expect_raise /\ e.outcome \notin InputErrors THEN <<"-", "ForeignException">>
+               ELSE <<"ok", "ok">>)
          ELSE <<"C18", "CopyReturns">>
+    ELSE IF e.sc.expect_raise THEN <<"-", "RejectedKeywordAccepted">>
     ELSE IF e.same_object THEN <<"C18", "CopyIsNewObject">>
     ELSE LET pre == ObOf(e.pre)
              post == ObOf(e.post)
              o == e.root
              c == e.ren[o]
              A == ArgsIn(pre)
-             cl == CopyClause(pre, post, o, e.ren, OvrOf(e), FreeOf(e, pre), A)
+             cl == CopyClause(pre, post, o, e.ren, OvrOf(e), FreeOf(e, pre), A, ParOf(e))
              labs == {n \in Entries(e) : n.family = "label"}
          IN IF cl \notin {"ok", "ArgumentsNotAliased"} THEN <<"C18", cl>>
             ELSE IF \E x1 \in OSub(pre, o) : e.post.cls[e.ren[x1]] # e.pre.cls[x1] THEN <<"C18", "SameClass">>
